@@ -491,6 +491,19 @@ class Engine:
         self.stats.feasibility_queries += 1
         if not self._check(e):
             raise PathAbort()
+        # atoms of an assumed formula are no longer free (the fork shortcut must not apply to them)
+        stack = [e]
+        seen = set()
+        while stack:
+            x = stack.pop()
+            i = x.get_id()
+            if i in seen:
+                continue
+            seen.add(i)
+            if z3.is_const(x) and x.decl().kind() == z3.Z3_OP_UNINTERPRETED:
+                self.entangled.add(i)
+            else:
+                stack.extend(x.children())
         self._assume(e)
 
     # ---- assertions
